@@ -15,7 +15,7 @@
    harness under the race detector. *)
 From Coq Require Import ZArith List Bool Arith Lia.
 From Verif Require Import Pipeline.Model Pipeline.Exec Pipeline.ProofsBasic Pipeline.ProofsChain Pipeline.ProofsOrder
-  Pipeline.ProofsLive Pipeline.ProofsErr Pipeline.Theorems Pipeline.ProofsXml Pipeline.Witness.
+  Pipeline.ProofsLive Pipeline.ProofsErr Pipeline.ProofsTerm Pipeline.Theorems Pipeline.ProofsXml Pipeline.Witness.
 Import ListNotations.
 
 (* ---- 1. "returns without consuming the rest of the input" ---- *)
@@ -126,6 +126,32 @@ Print Assumptions C07_err_lost_refuted.
 Example C07_err_kept_now :
   let s := fst lost_run_now in err_value s = eCtx /\ snd lost_run_now = [OScan true 1%Z; OScan false 0%Z; OErr eCtx].
 Proof. vm_compute. split; reflexivity. Qed.
+
+(* per goroutine (Pipeline/ProofsTerm.v): after the cancellation each goroutine takes a bounded
+   number of ITS OWN steps along any continuation, independent of n and of the consumer: reader
+   <= 3, serializer <= 3, worker i <= 2 per block queued for it + 4 *)
+Theorem C07_reader_steps_after_cancel : forall c sched s, wf_cfg c = true -> current c = true ->
+  reach c s -> cancelled s = true -> taken c is_rd sched s <= 3.
+Proof. exact T_reader_steps_after_cancel. Qed.
+Print Assumptions C07_reader_steps_after_cancel.
+
+Theorem C07_serializer_steps_after_cancel : forall c sched s, wf_cfg c = true -> current c = true ->
+  reach c s -> cancelled s = true -> taken c is_se sched s <= 3.
+Proof. exact T_serializer_steps_after_cancel. Qed.
+Print Assumptions C07_serializer_steps_after_cancel.
+
+Theorem C07_worker_steps_after_cancel : forall c i sched s, wf_cfg c = true -> current c = true ->
+  reach c s -> cancelled s = true ->
+  taken c (is_wk i) sched s <= 2 * length (w_in (getw i (ws s))) + 4.
+Proof. exact T_worker_steps_after_cancel. Qed.
+Print Assumptions C07_worker_steps_after_cancel.
+
+(* EVERY maximal continuation (no pipeline step enabled any more) ends with all goroutines Done *)
+Theorem C07_quiescent_all_done : forall c sched s, wf_cfg c = true -> current c = true ->
+  reach c s -> running s = true -> cancelled s = true ->
+  quiescent c (fst (run c sched s)) -> all_done (fst (run c sched s)) = true.
+Proof. exact T_quiescent_all_done. Qed.
+Print Assumptions C07_quiescent_all_done.
 
 (* ---- XML scanner ---- *)
 Theorem C07_xml_close_scan_false : forall a x h,
